@@ -16,7 +16,13 @@ pub enum Case {
     /// all big-endian ikm values start..start+count of `width` bytes
     DeriveRange { kem: Kem, width: usize, start: u32, count: u32 },
     Gen { kem: Kem, fill: Fill, tag: u64, extra: usize },
+    /// gen_keypair / encap with an RNG that hands out exactly these bytes
+    GenHex { kem: Kem, script: String },
     Encap { kem: Kem, auth: bool, tag: u64 },
+    /// Decap / AuthDecap / AuthEncap with structurally special but VALID keys: private keys 1, 2, n-1, n-2,
+    /// public keys G, 2G, -G and the point with x = 0 - in particular pairs whose DH result has x = 0 or is +-G.
+    /// RFC 9180 defines an ordinary shared secret for all of them.
+    Special { kem: Kem, sk_idx: usize, pk_idx: usize, auth: bool },
 }
 
 pub struct C03 {
@@ -26,6 +32,9 @@ pub struct C03 {
 pub const IKM_LENS: [usize; 11] = [0, 1, 31, 32, 33, 48, 64, 66, 67, 128, 255];
 /// Appendix B: first P-256 candidate >= n
 pub const P256_RETRY_WITNESS: &str = "00000000a432f1f9";
+/// an Nsk-sized (32-byte) ikm with the same property - what a caller's RNG may hand to GenerateKeyPair
+/// (found by an independent sub-agent's search; R1 and R2 confirm on every run that the first candidate is rejected)
+pub const P256_RETRY_WITNESS_32: &str = "9172dfb805e6432c896af750000000000e533661d5b613fc593a8760cdae0b94";
 
 fn derive_check(out: &mut CaseOut, kem: Kem, ikm: &[u8], tr: Option<&std::sync::Mutex<Vec<String>>>) {
     let ops = kem_ops(kem);
@@ -104,7 +113,18 @@ impl Part for C03 {
                 }
             }
         }
+        for kem in [Kem::P256, Kem::P384, Kem::P521] {
+            for sk_idx in 0..4 {
+                for pk_idx in 0..5 {
+                    for auth in [false, true] {
+                        v.push(Case::Special { kem, sk_idx, pk_idx, auth });
+                    }
+                }
+            }
+        }
         v.push(Case::DeriveHex { kem: Kem::P256, ikm: P256_RETRY_WITNESS.into() });
+        v.push(Case::DeriveHex { kem: Kem::P256, ikm: P256_RETRY_WITNESS_32.into() });
+        v.push(Case::GenHex { kem: Kem::P256, script: P256_RETRY_WITNESS_32.into() });
         // RFC 9180 Appendix A ikm values (the derived keys are pinned by the R1 self-test / R2 anchors)
         v.push(Case::DeriveHex { kem: Kem::X25519, ikm: "7268600d403fce431561aef583ee1613527cff655c1343f29812e66706df3234".into() });
         v.push(Case::DeriveHex { kem: Kem::P256, ikm: "4270e54ffd08d79d5928020af4686d8f6b7d35dbe470265f1f5aa22816ce860e".into() });
@@ -123,7 +143,7 @@ impl Part for C03 {
             Case::DeriveHex { kem, ikm } => {
                 out.outcome = format!("derive-witness/{}", kem.name());
                 derive_check(&mut out, *kem, &unhex(ikm), tr);
-                if ikm == P256_RETRY_WITNESS {
+                if ikm == P256_RETRY_WITNESS || ikm == P256_RETRY_WITNESS_32 {
                     let (_, _, rej) = kem.derive_keypair(&unhex(ikm));
                     out.check("P-256 witness executes the rejection branch in R1", rej == 1);
                 }
@@ -134,6 +154,35 @@ impl Part for C03 {
                     let ikm: Vec<u8> = if *width == 1 { vec![x as u8] } else { vec![(x >> 8) as u8, x as u8] };
                     // keep the R2 transcript small: only every 97th value of a range goes to R2
                     derive_check(&mut out, *kem, &ikm, if x % 97 == 0 { tr } else { None });
+                }
+            }
+            Case::GenHex { kem, script } => {
+                out.outcome = format!("gen-witness/{}", kem.name());
+                let ops = kem_ops(*kem);
+                let script = unhex(script);
+                let (sk_ref, pk_ref, rej) = kem.derive_keypair(&script[..kem.nsk()]);
+                if rej == 0 {
+                    out.fail_machinery("the 32-byte witness does not exercise the rejection branch in R1");
+                }
+                let mut rng = ScriptRng::new(&script);
+                out.transitions += 1;
+                out.nontrivial = true;
+                match ops.gen_keypair(&mut rng) {
+                    Obs::Ok((sk, pk)) => {
+                        if sk != sk_ref || pk != pk_ref {
+                            out.fail(format!("{} gen_keypair with RNG output {}: pk {} want {} (DeriveKeyPair must move on to the next candidate)", kem.name(), crate::obs::hx(&script), hex(&pk), hex(&pk_ref)));
+                        }
+                    }
+                    o => out.fail(format!("gen_keypair: {}", o.class())),
+                }
+                // and as the ephemeral key of an encapsulation
+                let k = keys(*kem, 3950, cfg.seed);
+                let mut rng = ScriptRng::new(&script);
+                let want = kem.encap(&k.pk_r, None, &sk_ref);
+                out.transitions += 1;
+                match (ops.encap(&k.pk_r, None, &mut rng), want) {
+                    (Obs::Ok((ss, enc)), Some((wss, wenc))) if ss == wss && enc == wenc => {}
+                    (o, _) => out.fail(format!("{} encap with the witness as RNG output: {} / differs from R1", kem.name(), o.map(|_| ()).class())),
                 }
             }
             Case::Gen { kem, fill, tag, extra } => {
@@ -158,6 +207,56 @@ impl Part for C03 {
                         }
                         o => out.fail(format!("gen_keypair: {}", o.class())),
                     }
+                }
+            }
+            Case::Special { kem, sk_idx, pk_idx, auth } => {
+                out.outcome = format!("special-keys/{}", kem.name());
+                let ops = kem_ops(*kem);
+                let n_minus = |d: u64| -> Vec<u8> {
+                    // n - d = -(d) mod n : negate the scalar d
+                    let mut d_bytes = vec![0u8; kem.nsk()];
+                    let l = d_bytes.len();
+                    d_bytes[l - 8..].copy_from_slice(&d.to_be_bytes());
+                    kem.neg_sk(&d_bytes).unwrap()
+                };
+                let small = |d: u64| -> Vec<u8> {
+                    let mut b = vec![0u8; kem.nsk()];
+                    let l = b.len();
+                    b[l - 8..].copy_from_slice(&d.to_be_bytes());
+                    b
+                };
+                let sk = [small(1), small(2), n_minus(1), n_minus(2)][*sk_idx].clone();
+                let g = kem.small_multiple(1).unwrap();
+                let pk = match *pk_idx {
+                    0 => g.clone(),
+                    1 => kem.small_multiple(2).unwrap(),
+                    2 => kem.neg_pk(&g).unwrap(),
+                    3 => match kem.point_x_zero() {
+                        Some(p) => p,
+                        None => return out,
+                    },
+                    _ => kem.neg_pk(&kem.point_x_zero().unwrap_or_else(|| g.clone())).unwrap(),
+                };
+                let k = keys(*kem, 3900, cfg.seed);
+                // receiver holds the special private key, the special public key arrives as enc (and as pkS)
+                let want = kem.decap(&pk, &sk, if *auth { Some(&pk) } else { None });
+                let got = ops.decap(&sk, if *auth { Some(&pk) } else { None }, &pk);
+                out.transitions += 1;
+                out.nontrivial = true;
+                match (&got, &want) {
+                    (Obs::Ok(g), Some(w)) if g == w => {}
+                    (g, w) => out.fail(format!("{} decap(sk #{}, enc = special point #{}, auth {}): got {} want {}", kem.name(), sk_idx, pk_idx, auth, g.class(), if w.is_some() { "Ok(RFC shared secret)" } else { "failure" })),
+                }
+                // sender: recipient key is the special point, identity key is the special private key
+                let (sk_e, _, _) = kem.derive_keypair(&k.ikm_e);
+                let pk_of_sk = kem.pk_of(&sk).unwrap();
+                let want = kem.encap(&pk, if *auth { Some(&sk) } else { None }, &sk_e);
+                let mut rng = ScriptRng::new(&k.ikm_e);
+                let got = ops.encap(&pk, if *auth { Some((&sk, &pk_of_sk)) } else { None }, &mut rng);
+                out.transitions += 1;
+                match (&got, &want) {
+                    (Obs::Ok(g), Some(w)) if g.0 == w.0 && g.1 == w.1 => {}
+                    (g, w) => out.fail(format!("{} encap(pkR = special point #{}, skS #{}, auth {}): got {} want {}", kem.name(), pk_idx, sk_idx, auth, g.as_ref().map(|_| ()).class(), if w.is_some() { "Ok(RFC shared secret, enc)" } else { "failure" })),
                 }
             }
             Case::Encap { kem, auth, tag } => {
